@@ -225,7 +225,9 @@ func structMembers(v reflect.Value, out *Value, amb *int, depth int) {
 				continue
 			}
 			optional = empty && open
-			fv = target
+			if _, custom := CustomFolders[fv.Type()]; !custom {
+				fv = target // (a folder registered for the field's own type gets the field's value, not what it holds)
+			}
 		}
 		out.Keys = append(out.Keys, name)
 		out.Elems = append(out.Elems, refFold(fv, amb, depth+1))
